@@ -349,6 +349,15 @@ Definition setup_trampoline (pm : pmap) (d : mdi) : option (pmap * mdi) :=
 Definition cleanup_trampoline (pm : pmap) (d : mdi) : pmap :=
   mprotect pm (d_text_addr d) (d_text_size d) P_RX.
 
+(* [fixed = false]: the code as found - a failed mmap of the trampoline page is a pr_err.
+   [fixed = true]: proposed-fixes/C14-1.diff - undo and return -1, the module stays unpatched. *)
+Inductive setup_res := SetupOk (pm : pmap) (d : mdi) | SetupFail | SetupFatal.
+Definition setup_trampoline_v (fixed : bool) (pm : pmap) (d : mdi) : setup_res :=
+  match setup_trampoline pm d with
+  | Some (pm1, d1) => SetupOk pm1 d1
+  | None => if fixed then SetupFail else SetupFatal
+  end.
+
 (* jmpq *0x1(%rip) ; int3 ; .quad target *)
 Definition trampoline_head : bytes := [62; 255; 37; 1; 0; 0; 0; 204]%N.
 Definition trampoline_bytes (target : Z) : bytes := trampoline_head ++ le_bytes 8 target.
@@ -600,23 +609,32 @@ Fixpoint save_codes (pm : pmap) (cps : list code_page) (n : nat) (psz : Z) : pma
   end.
 Definition perm_list_eqb := list_eqb perm_eqb.
 
-Definition u_agrees (u : ucase) : bool :=
+Definition u_pages_agree (u : ucase) (pm1 : pmap) (d1 : mdi) : bool :=
   let np := length (u_perms u) in
-  match setup_trampoline (pm_of (u_perms u)) (u_mdi u) with
-  | None => i_fatal u
-  | Some (pm1, d1) =>
+  let '(pm2, cps2) := save_codes pm1 [] (u_ncode u) (align32 (Z.min (u_codesz u) 64 + 15)) in
+  let pm3 := cleanup_trampoline pm2 d1 in
+  let '(pm4, cps4) := freeze_code pm3 cps2 in
+  perm_list_eqb (perms_of pm4 np) (i_perm2 u)
+  && Nat.eqb (length cps2) (i_ncp u)
+  && perm_list_eqb (map (fun cp => pm2 (cp_page cp)) cps2) (i_cp_before u)
+  && perm_list_eqb (map (fun cp => pm4 (cp_page cp)) cps4) (i_cp_after u).
+
+Definition u_agrees (fixed : bool) (u : ucase) : bool :=
+  let np := length (u_perms u) in
+  match setup_trampoline_v fixed (pm_of (u_perms u)) (u_mdi u) with
+  | SetupFatal => i_fatal u
+  | SetupFail =>
+      negb (i_fatal u) && (i_rc u =? -1)%Z && (i_tsize u =? u_text_size u)%Z
+      && perm_list_eqb (u_perms u) (i_perm1 u)
+      && bytes_eqb (u_before u) (i_after u) && stats_eqb stats0 (i_stats u)
+      && u_pages_agree u (pm_of (u_perms u)) (u_mdi u)
+  | SetupOk pm1 d1 =>
       negb (i_fatal u) && (i_rc u =? 0)%Z && (d_tramp d1 =? i_tramp u)%Z && (d_text_size d1 =? i_tsize u)%Z
       && perm_list_eqb (perms_of pm1 np) (i_perm1 u)
       && (let '(m, k) := patch_func_matched (u_oracle u) (u_cfg u (d_tramp d1)) (u_syms u) (u_targets u)
                                             (mem_of (u_wbase u) (u_before u), stats0) in
           bytes_eqb (window m (u_wbase u) (length (u_before u))) (i_after u) && stats_eqb k (i_stats u))
-      && (let '(pm2, cps2) := save_codes pm1 [] (u_ncode u) (align32 (Z.min (u_codesz u) 64 + 15)) in
-          let pm3 := cleanup_trampoline pm2 d1 in
-          let '(pm4, cps4) := freeze_code pm3 cps2 in
-          perm_list_eqb (perms_of pm4 np) (i_perm2 u)
-          && Nat.eqb (length cps2) (i_ncp u)
-          && perm_list_eqb (map (fun cp => pm2 (cp_page cp)) cps2) (i_cp_before u)
-          && perm_list_eqb (map (fun cp => pm4 (cp_page cp)) cps4) (i_cp_after u))
+      && u_pages_agree u pm1 d1
   end.
 
 (* the property on the implementation's outputs *)
@@ -659,11 +677,12 @@ Definition e_pm (e : ecase) : pmap :=
 Definition names_subset (a b : list bytes) : bool := forallb (fun n => existsb (bytes_eqb n) b) a.
 Definition names_eq (a b : list bytes) : bool := names_subset a b && names_subset b a.
 
-Definition e_model (e : ecase) : option (bytes * list bytes) :=
-  match setup_trampoline (e_pm e)
+Definition e_model (fixed : bool) (e : ecase) : option (bytes * list bytes) :=
+  match setup_trampoline_v fixed (e_pm e)
           {| d_text_addr := e_text_addr e; d_text_size := e_text_size e; d_tramp := 0; d_ty := dyntype_of (e_ty e) |} with
-  | None => None
-  | Some (_, d1) =>
+  | SetupFatal => None
+  | SetupFail => Some (e_before e, [])
+  | SetupOk _ d1 =>
       let c := e_cfg e (d_tramp d1) in
       let m0 := mem_of (e_wbase e) (e_before e) in
       let m := fst (patch_func_matched (e_oracle e) c (e_syms e) (e_targets e) (m0, stats0)) in
@@ -672,8 +691,8 @@ Definition e_model (e : ecase) : option (bytes * list bytes) :=
                                          bytes_eqb (rd m en 5) (call_insn (d_tramp d1) en))
                                (visited c (e_syms e) (e_targets e))))
   end.
-Definition e_agrees (e : ecase) : bool :=
-  match e_model e with
+Definition e_agrees (fixed : bool) (e : ecase) : bool :=
+  match e_model fixed e with
   | None => o_died e
   | Some (w, names) => negb (o_died e) && bytes_eqb w (o_after e) && names_eq names (o_traced e)
   end.
